@@ -209,8 +209,18 @@ Inductive response :=
 
 Record route := { r_prefix : str; r_dir : str; r_fallback : option str; r_downloadable : bool }.
 
+(* If-Modified-Since as Request.if_modified_since reads it: absent, not an HTTP date
+   (HTTPInvalidHeader, 400), or a date (seconds) *)
+Inductive ims_hdr := IAbsent | IInvalid | IDate (t : Z).
+Definition ims_time (i : ims_hdr) : option Z := match i with IDate t => Some t | _ => None end.
+
+(* StaticRoute.__call__ in its order of evaluation:
+   OPTIONS -> sanitise the path (404) -> open the candidate, else the fallback (404) ->
+   Last-Modified, req.if_modified_since (400 if malformed), 304 ->
+   req.range_unit / req.range (400 if malformed) -> _set_range (200 / 206 / 416).
+   The request headers are not looked at before a file has been opened. *)
 Definition serve (rt : route) (files : fs) (is_options : bool) (path : str)
-           (ims : option Z) (rng : range_hdr) : response :=
+           (ims : ims_hdr) (rng : range_hdr) : response :=
   if is_options then ROptions
   else
     match sanitize (length (r_prefix rt)) (match r_fallback rt with Some _ => true | None => false end) (r_dir rt) path with
@@ -228,7 +238,10 @@ Definition serve (rt : route) (files : fs) (is_options : bool) (path : str)
       match opened with
       | None => R404
       | Some (file, (size, mt)) =>
-        if match ims with Some t => mtime_sec mt <=? t | None => false end then R304 file
+        match ims with
+        | IInvalid => R400
+        | _ =>
+        if match ims_time ims with Some t => mtime_sec mt <=? t | None => false end then R304 file
         else
           match rng with
           | RInvalid => R400
@@ -240,6 +253,7 @@ Definition serve (rt : route) (files : fs) (is_options : bool) (path : str)
             | Unsat sz => R416 file sz
             end
           end
+        end
       end
     end.
 
